@@ -1,9 +1,11 @@
 """C20 — Temporal context of every event equals the set of processes ongoing at that time.
 
 Correspondence: the real `EventManager` / `HedTagManager` on generated events frames (Onset/Offset pairs,
-Duration groups, Delay shifts, equal-onset rows, plain tags; times on a 1/8 s grid) against
-`Events.build` / `Events.contexts`.  Direct oracle: the property statement computed independently in
-Python per *time point* from the generated history (`spec_processes`), applied to the implementation's output.
+Inset groups, Duration groups, Delay shifts, equal-onset rows, plain tags, type tags; times on a 1/8 s grid)
+against the Lean model working on the *text* of the file (`Events.buildText`: C02 parser, classification of the
+top-level groups, scan, process texts by `splitGroup`, unfolding with `remove_types` / `replace_defs`).
+Direct oracle: the property statement computed independently in Python per *time point* from the generated
+history (`spec_processes`, own rendering `item_str`), applied to the implementation's output.
 """
 import itertools
 import json
@@ -21,11 +23,28 @@ THEOREMS = [
     "HedVerif.C20.remainder_plain",
     "HedVerif.C20.reject_unordered",
     "HedVerif.C20.accept_ordered",
+    "HedVerif.C20.process_content_spec",
+    "HedVerif.C20.inset_is_remainder",
+    "HedVerif.C20.inset_not_scanned",
+    "HedVerif.C20.onset_duration_is_onset",
+    "HedVerif.C20.unfold_commutes",
+    "HedVerif.C20.frame_is_timepoints",
+    "HedVerif.C20.frame_times_are_effective_times",
+    "HedVerif.C20.valid_history_never_rejected",
+    "HedVerif.C20.valid_text_never_rejected",
+    "HedVerif.C20.classify_ok",
 ]
 BUDGET = {"quick": 900, "thorough": 3600}
 
-DEFS = "(Definition/A, (Red)), (Definition/B, (Blue)), (Definition/C/#, (Label/#))"
-NAMES = ["A", "a", "B", "C/1", "C/2"]
+DEF_TABLE = [["A", "Condition-variable/Cv1, Red"], ["B", "Blue"], ["C", "Label/#, Task/T1"], ["Ab", "Green"]]
+DEFS = "(Definition/A, (Condition-variable/Cv1, Red)), (Definition/B, (Blue)), (Definition/C/#, (Label/#, Task/T1)), " \
+       "(Definition/Ab, (Green))"
+NAMES = ["A", "a", "B", "C/1", "C/2", "Ab"]
+# HedTagManager(em, remove_types=types).get_hed_objs(include_context=ctx, replace_defs=replace)
+VARIANTS = [{"types": [], "ctx": True, "replace": False},
+            {"types": ["Condition-variable"], "ctx": True, "replace": False},
+            {"types": ["condition-variable", "Task"], "ctx": True, "replace": True},
+            {"types": [], "ctx": False, "replace": True}]
 INF = math.inf
 # Reading of the property for the *later* rows of a merged time point (DESIGN section 8 #15).  False: the later
 # rows are filler entries of the time point and are compared with the reading the model is proved to satisfy
@@ -37,69 +56,115 @@ SIG_LATER = "C20-merged-rows-see-own-starts"
 SPELLS = [lambda n: f"{n / 8} s", lambda n: f"{n * 125} ms", lambda n: f"{n / 8} second",
           lambda n: f"{n / 8} Seconds", lambda n: f"{n / 8} seconds"]
 
+# Items of a row (JSON lists; the trailing fields are optional so that older replay files still load):
+#   ["onset", name, uid, inner, lc]   inner: 0/False none, 1/True (Label/uN), 2 (Condition-variable/VN, Label/uN),
+#                                      3 (Label/uN, (Task/TN, Red)); lc: reserved tags spelled in lower case
+#   ["offset", name, lc]   ["inset", name, uid]   ["duration", len8, uid, spell, lc]   ["plain", uid, style]
+#   ["onsetdur", name, len8, uid]  Onset and Duration in one group (rejected by the validator; model/impl only)
+#   ["durbare", len8, uid]         Duration group without inner group (rejected by the validator; content "None")
+
+
+def _inner(it):
+    v = it[3] if len(it) > 3 else 0
+    return 1 if v is True else 0 if v is False else v
+
+
+def _lc(it, pos):
+    return bool(it[pos]) if len(it) > pos else False
+
+
+INNER_TEXT = {1: "(Label/u{u})", 2: "(Condition-variable/V{u}, Label/u{u})", 3: "(Label/u{u}, (Task/T{u}, Red))"}
+PLAIN_TEXT = {0: "Label/p{u}", 1: "(Label/p{u}, Green)", 2: "(Condition-variable/W{u}, Label/p{u})", 3: "Task/Tp{u}"}
+
 
 # ---------------------------------------------------------------- rendering (harness items -> HED text)
-def _delay(d):
-    return f"Delay/{d / 8} s"
+def _delay_tag(d, lc=False):
+    return f"{'delay' if lc else 'Delay'}/{d / 8} s"
 
 
 def cell_text(it, d=None):
-    dp = (_delay(d) + ", ") if d is not None else ""
     k = it[0]
     if k == "onset":
-        return "(" + dp + f"Def/{it[1]}, Onset" + (f", (Label/u{it[2]})" if it[3] else "") + ")"
+        lc = _lc(it, 4)
+        dp = (_delay_tag(d, lc) + ", ") if d is not None else ""
+        inner = _inner(it)
+        tail = (", " + INNER_TEXT[inner].format(u=it[2])) if inner else ""
+        return "(" + dp + (f"def/{it[1]}, onset" if lc else f"Def/{it[1]}, Onset") + tail + ")"
     if k == "offset":
-        return "(" + dp + f"Def/{it[1]}, Offset)"
+        lc = _lc(it, 2)
+        dp = (_delay_tag(d, lc) + ", ") if d is not None else ""
+        return "(" + dp + (f"def/{it[1]}, offset)" if lc else f"Def/{it[1]}, Offset)")
+    dp = (_delay_tag(d) + ", ") if d is not None else ""
+    if k == "inset":
+        return "(" + dp + f"Def/{it[1]}, Inset, (Label/u{it[2]}))"
     if k == "duration":
-        return "(" + dp + f"Duration/{SPELLS[it[3]](it[1])}, (Label/u{it[2]}))"
+        lc = _lc(it, 4)
+        dp = (_delay_tag(d, lc) + ", ") if d is not None else ""
+        return "(" + dp + f"{'duration' if lc else 'Duration'}/{SPELLS[it[3]](it[1])}, (Label/u{it[2]}))"
+    if k == "onsetdur":
+        return "(" + dp + f"Def/{it[1]}, Onset, Duration/{it[2] / 8} s, (Label/u{it[3]}))"
+    if k == "durbare":
+        return "(" + dp + f"Duration/{it[1] / 8} s, Label/u{it[2]})"
     if d is not None:
-        return f"({_delay(d)}, (Label/p{it[1]}))"
-    return f"Label/p{it[1]}" if it[2] == 0 else f"(Label/p{it[1]}, Green)"
+        return f"({_delay_tag(d)}, (Label/p{it[1]}))"
+    return PLAIN_TEXT[it[2]].format(u=it[1])
+
+
+def _nosp(s):
+    return s.replace(", ", ",")
 
 
 def item_str(it, d=None):
-    """the text the manager is expected to show for the item (process text or remainder text)"""
-    dp = (_delay(d) + ",") if d is not None else ""
+    """the text the manager is expected to show for the item (process text or remainder text): the statement's
+    'process content' / 'remaining annotation', rendered here independently of the Lean model"""
     k = it[0]
+    dp = (_delay_tag(d) + ",") if d is not None else ""
     if k == "onset":
-        return f"({dp}Def/{it[1]},(Label/u{it[2]}))" if it[3] else f"Def/{it[1]}"
+        inner = _inner(it)
+        return f"({dp}Def/{it[1]},{_nosp(INNER_TEXT[inner].format(u=it[2]))})" if inner else f"Def/{it[1]}"
     if k == "duration":
         return f"({dp}(Label/u{it[2]}))"
+    if k == "inset":
+        return f"({dp}Def/{it[1]},Inset,(Label/u{it[2]}))"
     if k == "plain":
         if d is not None:
             return f"({dp}(Label/p{it[1]}))"
-        return f"Label/p{it[1]}" if it[2] == 0 else f"(Label/p{it[1]},Green)"
+        return _nosp(PLAIN_TEXT[it[2]].format(u=it[1]))
     return None
 
 
-def model_item(it):
-    return {"onset": it[:3], "offset": it[:2], "duration": it[:3], "plain": it[:2]}[it[0]]
+def value_table(rows, spells_unused=None):
+    """(tag text, value in default units x 8) of every Duration / Delay tag of the file (conversion is C11's)"""
+    out = {}
+    for r in rows:
+        for d, it in [(None, i) for i in r["items"]] + [(d, i) for d, i in r["delayed"]]:
+            if d is not None:
+                for lc in (False, True):
+                    out[_delay_tag(d, lc)] = d
+            if it[0] == "duration":
+                out[f"{'duration' if _lc(it, 4) else 'Duration'}/{SPELLS[it[3]](it[1])}"] = it[1]
+            elif it[0] == "onsetdur":
+                out[f"Duration/{it[2] / 8} s"] = it[2]
+            elif it[0] == "durbare":
+                out[f"Duration/{it[1] / 8} s"] = it[1]
+    return [[k, v] for k, v in out.items()]
 
 
-def model_rows(rows):
-    return [{"time": r["time"], "items": [model_item(i) for i in r["items"]],
-             "delayed": [[d, model_item(i)] for d, i in r["delayed"]]} for r in rows]
+def row_text(r):
+    cell = [cell_text(i) for i in r["items"]] + [cell_text(i, d) for d, i in r["delayed"]]
+    return ", ".join(cell) if cell else "n/a"
+
+
+def model_request(rows):
+    # an empty cell reaches the manager as '' (n/a is dropped by the assembly)
+    return {"op": "c20.text", "rows": [{"time": r["time"], "hed": "" if row_text(r) == "n/a" else row_text(r)} for r in rows],
+            "vals": value_table(rows), "defs": DEF_TABLE, "variants": VARIANTS}
 
 
 def rows_to_frame(rows):
     import pandas as pd
-    heds = []
-    for r in rows:
-        cell = [cell_text(i) for i in r["items"]] + [cell_text(i, d) for d, i in r["delayed"]]
-        heds.append(", ".join(cell) if cell else "n/a")
-    return pd.DataFrame({"onset": [str(r["time"] / 8) for r in rows], "duration": ["n/a"] * len(rows), "HED": heds})
-
-
-def uid_strings(rows):
-    out = {}
-    for r in rows:
-        for i in r["items"]:
-            if i[0] != "offset":
-                out[i[2] if i[0] != "plain" else i[1]] = item_str(i)
-        for d, i in r["delayed"]:
-            if i[0] != "offset":
-                out[i[2] if i[0] != "plain" else i[1]] = item_str(i, d)
-    return out
+    return pd.DataFrame({"onset": [str(r["time"] / 8) for r in rows], "duration": ["n/a"] * len(rows),
+                         "HED": [row_text(r) for r in rows]})
 
 
 def split_top(s):
@@ -144,25 +209,51 @@ def spec_processes(rows):
                 procs.append((t, min(later, default=INF), item_str(it, d)))
             elif it[0] == "duration":
                 procs.append((t, min([t2 for t2 in T if t2 >= t + it[1]], default=INF), item_str(it, d)))
-            elif it[0] == "plain":
+            elif it[0] in ("plain", "inset"):
                 plain[t].append(item_str(it, d))
     return T, procs, plain, sorted(t for t, _ in fr)
 
 
 def valid_history(rows):
-    """Offsets match an open Onset; no folded name twice in one time point"""
+    """what string/temporal validation accepts: Offsets and Insets refer to a process open before their time
+    point, no folded name twice in one time point, no Onset+Duration group, no bare Duration group"""
     fr = frame_rows(rows)
+    if any(i[0] in ("onsetdur", "durbare") for _, its in fr for i, _ in its):
+        return False
     open_ = set()
     for t in sorted({t for t, _ in fr}):
-        ms = [(i[0], i[1].casefold()) for tt, its in fr if tt == t for i, _ in its if i[0] in ("onset", "offset")]
+        ms = [(i[0], i[1].casefold()) for tt, its in fr if tt == t for i, _ in its
+              if i[0] in ("onset", "offset", "inset")]
         if len({k for _, k in ms}) != len(ms):
             return False
         for kind, k in ms:
-            if kind == "offset" and k not in open_:
+            if kind != "onset" and k not in open_:
                 return False
         for kind, k in ms:
-            (open_.add if kind == "onset" else open_.discard)(k)
+            if kind == "onset":
+                open_.add(k)
+            elif kind == "offset":
+                open_.discard(k)
     return True
+
+
+def raises_expected(rows):
+    """does the constructor have to raise for an ordered file (only possible for invalid histories):
+    an Offset whose name is not open when the scan reaches it"""
+    fr = frame_rows(rows)
+    open_ = set()
+    for t in sorted({t for t, _ in fr}):
+        for tt, its in fr:
+            if tt != t:
+                continue
+            for i, _ in its:
+                if i[0] in ("onset", "onsetdur"):
+                    open_.add(i[1].casefold())
+                elif i[0] == "offset":
+                    if i[1].casefold() not in open_:
+                        return True
+                    open_.discard(i[1].casefold())
+    return False
 
 
 def ambiguous_firsts(rows, onsets):
@@ -183,8 +274,11 @@ def impl_run(rows, schema, dd):
     df = rows_to_frame(rows)
     before = df.copy()
     em = EventManager(TabularInput(df, name="gen"), schema, dd)
-    tm = HedTagManager(em)
-    objs = tm.get_hed_objs(True)
+    objs, typedefs = [], []
+    for v in VARIANTS:
+        tm = HedTagManager(em, remove_types=list(v["types"]))
+        objs.append([str(o) if o is not None else "" for o in tm.get_hed_objs(v["ctx"], v["replace"])])
+        typedefs.append(sorted(tm.type_def_names))
     assert df.equals(before)
     return {
         "onsets": [round(float(x) * 8) for x in em.onsets],
@@ -192,8 +286,7 @@ def impl_run(rows, schema, dd):
         "base": list(em.base), "contexts": list(em.contexts),
         "hed": [str(h) for h in em.hed_strings],
         "events": [[e.start_index, e.end_index, str(e.contents)] for ev in em.event_list for e in ev],
-        "events_per_row": [len(ev) for ev in em.event_list],
-        "objs": [str(o) if o is not None else "" for o in objs],
+        "objs": objs, "typedefs": typedefs,
     }
 
 
@@ -213,40 +306,47 @@ def _same(model_pairs, impl_strs, amb):
     return True
 
 
+def _obj_parts(parts):
+    cpart = [p for p in parts if p.startswith("(Event-context,(")]
+    inner = split_top(cpart[0][len("(Event-context,("):-2]) if cpart else []
+    rest = [p for p in parts if not p.startswith("(Event-context,(")]
+    return len(cpart), inner, rest
+
+
 def compare_model(ctx, rows, m, obs):
     case = {"rows": rows}
-    st = uid_strings(rows)
     if m["onsets"] != obs["onsets"]:
-        ctx.disagree("Events.build onsets = EventManager.onsets", case, m["onsets"], obs["onsets"])
+        ctx.disagree("Events.buildText onsets = EventManager.onsets", case, m["onsets"], obs["onsets"])
         return
     n = len(obs["onsets"])
     amb = ambiguous_firsts(rows, obs["onsets"])
-    mp = [[st[c], s] for s, e, c in m["procs"]]
+    mp = [[c, s] for s, e, c in m["procs"]]
     if not _same(mp, [x[2] for x in obs["events"]], amb) or \
-            sorted((s, e) for s, e, _ in m["procs"]) != sorted((s, e) for s, e, _ in obs["events"]) or \
-            sorted((s, e, st[c]) for s, e, c in m["procs"]) != sorted(map(tuple, obs["events"])):
-        ctx.disagree("Events.build processes = event_list (start_index, end_index, contents)", case,
-                     [[s, e, st[c]] for s, e, c in m["procs"]], obs["events"])
+            sorted((s, e, c) for s, e, c in m["procs"]) != sorted(map(tuple, obs["events"])):
+        ctx.disagree("Events.buildText processes = event_list (start_index, end_index, str(contents))", case,
+                     m["procs"], obs["events"])
+    for v, (mt, it) in enumerate(zip(m["typedefs"], obs["typedefs"])):
+        if sorted(mt) != it:
+            ctx.disagree("Events.typeDefNames = EventManager.get_type_defs", case, {"variant": v, "names": mt}, it)
     for i in range(n):
-        mb = [[st[c], i] for c in m["base"][i]]
+        mb = [[c, i] for c in m["base"][i]]
         if not _same(mb, split_top(obs["base"][i]), amb):
-            ctx.disagree("Events.base = EventManager.base", case, {"row": i, "base": mb}, obs["base"][i])
-        mc = [[st[c], s] for c, s in m["contexts"][i]]
+            ctx.disagree("Events.baseNodes = EventManager.base", case, {"row": i, "base": mb}, obs["base"][i])
+        mc = m["contexts"][i]
         if not _same(mc, split_top(obs["contexts"][i]), amb):
-            ctx.disagree("Events.contexts = EventManager.contexts", case, {"row": i, "ctx": mc}, obs["contexts"][i])
-        mr = [[st[c], i] for c in m["remainder"][i]]
+            ctx.disagree("Events.ctxNodes = EventManager.contexts", case, {"row": i, "ctx": mc}, obs["contexts"][i])
+        mr = [[c, i] for c in m["hed"][i]]
         if not _same(mr, split_top(obs["hed"][i]), amb):
-            ctx.disagree("Events remainder = EventManager.hed_strings", case, {"row": i, "rem": mr}, obs["hed"][i])
-        # HedTagManager.get_hed_objs(True): remainder, base, (Event-context,(contexts))
-        parts = split_top(obs["objs"][i])
-        cpart = [p for p in parts if p.startswith("(Event-context,(")]
-        inner = split_top(cpart[0][len("(Event-context,("):-2]) if cpart else []
-        rest = [p for p in parts if not p.startswith("(Event-context,(")]
-        ok = len(cpart) <= 1 and _same(mc, inner, amb) and \
-            ((sorted(rest) == sorted(x for x, _ in mr + mb)) if i in amb else (rest == [x for x, _ in mr + mb]))
-        if not ok:
-            ctx.disagree("model unfolding = HedTagManager.get_hed_objs(True)", case,
-                         {"row": i, "rem": mr, "base": mb, "ctx": mc}, obs["objs"][i])
+            ctx.disagree("Events.remNodes = EventManager.hed_strings", case, {"row": i, "rem": mr}, obs["hed"][i])
+        loose = i in amb or any(s in amb for _, s in mc)
+        for v in range(len(VARIANTS)):
+            a = _obj_parts(m["objs"][v][i])
+            b = _obj_parts(split_top(obs["objs"][v][i]))
+            if loose:
+                a, b = (a[0], sorted(a[1]), sorted(a[2])), (b[0], sorted(b[1]), sorted(b[2]))
+            if a != b:
+                ctx.disagree("Events.objNodes = HedTagManager(remove_types).get_hed_objs(ctx, replace_defs)", case,
+                             {"row": i, "variant": VARIANTS[v], "obj": m["objs"][v][i]}, obs["objs"][v][i])
 
 
 def oracle(ctx, rows, obs):
@@ -286,14 +386,11 @@ def oracle(ctx, rows, obs):
         if sorted(split_top(obs["hed"][i])) != wr:
             ctx.violation("remaining-annotation-kept-without-temporal-groups", case,
                           {"row": i, "hed": obs["hed"][i], "expected": wr})
-        # unfolding shows the same three parts
-        parts = split_top(obs["objs"][i])
-        cpart = [p for p in parts if p.startswith("(Event-context,(")]
-        inner = split_top(cpart[0][len("(Event-context,("):-2]) if cpart else []
-        rest = sorted(p for p in parts if not p.startswith("(Event-context,("))
-        if sorted(inner) != sorted(got) or rest != sorted(split_top(obs["hed"][i]) + split_top(obs["base"][i])):
+        # unfolding (no filtering) shows the same three parts
+        k, inner, rest = _obj_parts(split_top(obs["objs"][0][i]))
+        if sorted(inner) != sorted(got) or sorted(rest) != sorted(split_top(obs["hed"][i]) + split_top(obs["base"][i])):
             ctx.violation("unfolded-entry-shows-annotation-starts-and-context", case,
-                          {"row": i, "obj": obs["objs"][i], "base": obs["base"][i], "contexts": obs["contexts"][i]})
+                          {"row": i, "obj": obs["objs"][0][i], "base": obs["base"][i], "contexts": obs["contexts"][i]})
     # every process: starts at the first row of its time point, ends at the first row of its end point / at the end
     ev = []
     for s, e, txt in obs["events"]:
@@ -329,6 +426,8 @@ def boundary_stats(ctx, rows):
                 later = sorted(m for m in marks[it[1].casefold()] if m[0] > t)
                 ctx.count("onset-open-to-end-of-file" if not later else
                           "onset-closed-by-restart" if later[0][1] == "onset" else "onset-closed-by-offset")
+            elif it[0] == "inset":
+                ctx.count("inset-group")
 
 
 def check_file(ctx, rows, m, schema, dd, validate=False):
@@ -345,19 +444,20 @@ def check_file(ctx, rows, m, schema, dd, validate=False):
             if kind != "HedFileError":
                 ctx.violation("unordered-file-rejected", case, f"raised {kind}: {e}")
             if m.get("reject") != "unordered":
-                ctx.disagree("Events.build rejects unordered onsets", case, m, kind)
+                ctx.disagree("Events.buildText rejects unordered onsets", case, m, kind)
         elif not valid:
-            ctx.count("invalid-history-raised")
+            ctx.count("invalid-history-raised:" + kind)
             if m.get("ok"):
-                ctx.disagree("Events.build = EventManager on unmatched Offset", case, "ok", kind)
+                ctx.disagree("Events.buildText = EventManager on an invalid history", case, "ok", kind)
         else:
+            # `valid_history_never_rejected`: nothing the validators accept makes the constructor raise
             ctx.violation("manager-raised-on-valid-file", case, f"{kind}: {e}")
         return
     if not ordered:
         ctx.violation("unordered-file-rejected", case, "EventManager accepted non-monotone onsets")
         return
     if not m.get("ok"):
-        ctx.disagree("Events.build accepts what EventManager accepts", case, m, "ok")
+        ctx.disagree("Events.buildText accepts what EventManager accepts", case, m, "ok")
         return
     compare_model(ctx, rows, m, obs)
     nt = False
@@ -366,32 +466,37 @@ def check_file(ctx, rows, m, schema, dd, validate=False):
         nt = bool(stat and stat["ctx"] > 0)
         # the Lean specification agrees with the Python reference (the same statement, two formalisations)
         T, procs, _, _ = spec_processes(rows)
-        stx = uid_strings(rows)
         for i, t in enumerate(obs["onsets"]):
             s_strict, s_incl, s_start = m["spec"][i]
-            if sorted(stx[c] for c in s_strict) != sorted(p[2] for p in procs if p[0] < t < p[1]) or \
-                    sorted(stx[c] for c in s_incl) != sorted(p[2] for p in procs if p[0] <= t < p[1]) or \
-                    sorted(stx[c] for c in s_start) != sorted(p[2] for p in procs if p[0] == t):
+            if sorted(s_strict) != sorted(p[2] for p in procs if p[0] < t < p[1]) or \
+                    sorted(s_incl) != sorted(p[2] for p in procs if p[0] <= t < p[1]) or \
+                    sorted(s_start) != sorted(p[2] for p in procs if p[0] == t):
                 ctx.disagree("Events.specContext = reference of the statement", case, m["spec"][i], {"row": i})
     else:
         ctx.count("invalid-history-accepted-by-both")
+        if raises_expected(rows):
+            ctx.disagree("reference: unmatched Offset must raise", case, "ok", "ok")
     n = len(obs["onsets"])
     if len(set(obs["onsets"])) < n:
         ctx.count("has-merged-time-point")
     if any(r["delayed"] for r in rows):
         ctx.count("has-delay-groups")
+    if any(obs["objs"][0][i] != obs["objs"][1][i] for i in range(n)):
+        ctx.count("type-filter-changes-an-entry")
+    if any(obs["objs"][0][i] != obs["objs"][3][i] and obs["objs"][3][i] for i in range(n)):
+        ctx.count("replace-defs-changes-an-entry")
     if validate and valid:
         from hed import TabularInput
         iss = TabularInput(rows_to_frame(rows), name="gen").validate(schema, extra_def_dicts=dd)
         codes = sorted({i["code"] for i in iss if i["severity"] == 1})
         ctx.count("validator-clean" if not codes else "validator-errors:" + ",".join(codes))
     ctx.case(("f", json.dumps(rows)), nontrivial=nt,
-             sample=case if nt and len(rows) <= 4 and any(r["delayed"] for r in rows) else None)
+             sample=case if nt and len(rows) <= 3 and any(r["delayed"] for r in rows) else None)
 
 
 # ---------------------------------------------------------------- generators
 def repair(rows):
-    """drop markers that make the history invalid (Offset without open Onset, folded name twice in a time point)"""
+    """drop markers that make the history invalid (Offset/Inset without open Onset, folded name twice in a time point)"""
     fr = []
     for k, r in enumerate(rows):
         for p, i in enumerate(r["items"]):
@@ -403,16 +508,19 @@ def repair(rows):
     for t in sorted({x[0] for x in fr}):
         seen, pend = set(), []
         for tt, k, where, p, i in fr:
-            if tt != t or i[0] not in ("onset", "offset"):
+            if tt != t or i[0] not in ("onset", "offset", "inset"):
                 continue
             key = i[1].casefold()
-            if key in seen or (i[0] == "offset" and key not in open_):
+            if key in seen or (i[0] != "onset" and key not in open_):
                 drop.add((k, where, p))
                 continue
             seen.add(key)
             pend.append((i[0], key))
         for kind, key in pend:
-            (open_.add if kind == "onset" else open_.discard)(key)
+            if kind == "onset":
+                open_.add(key)
+            elif kind == "offset":
+                open_.discard(key)
     out = []
     for k, r in enumerate(rows):
         out.append({"time": r["time"],
@@ -442,15 +550,17 @@ def gen_rows(rng, nrows, spells, uid0=1):
         return rng.choice([1, 2, 4, 8, 12, 16, 24, 40])
 
     def item(k, delayed=False):
-        c = rng.choice(["onset", "onset", "offset", "offset", "duration", "duration", "plain"])
+        c = rng.choice(["onset", "onset", "onset", "offset", "offset", "duration", "duration", "plain", "inset"])
         if c == "onset":
-            return ["onset", rng.choice(NAMES), nu(), rng.random() < 0.7]
+            return ["onset", rng.choice(NAMES), nu(), rng.choice([0, 1, 1, 2, 3]), rng.random() < 0.2]
         if c == "offset":
-            return ["offset", rng.choice(NAMES)]
+            return ["offset", rng.choice(NAMES), rng.random() < 0.2]
+        if c == "inset":
+            return ["inset", rng.choice(NAMES), nu()]
         if c == "duration":
             n = span(k)
-            return ["duration", n, nu(), rng.choice(spells.get(n, [0]))]
-        return ["plain", nu(), 0 if delayed else rng.choice([0, 1])]
+            return ["duration", n, nu(), rng.choice(spells.get(n, [0])), rng.random() < 0.15]
+        return ["plain", nu(), 0 if delayed else rng.choice([0, 1, 2, 3])]
     rows = []
     for k in range(nrows):
         its = [item(k) for _ in range(rng.choice([0, 1, 1, 1, 2, 2, 3]))]
@@ -480,13 +590,15 @@ CELLS = [
     [(None, ("dur", 8))], [(None, ("dur", 16))], [(None, ("plain",))],
     [(8, ("on", "A"))], [(8, ("off", "a"))], [(8, ("dur", 8))],
     [(None, ("on", "a")), (None, ("dur", 8))], [(None, ("on", "B")), (None, ("off", "A"))],
+    [(None, ("in", "A"))],
 ]
+SMALL = [0, 1, 2, 3, 5, 6, 7, 9, 13]
 
 
 def exhaustive(nmax_full, nmax_small):
-    """every file of <= nmax_full rows over CELLS (<= nmax_small rows over the first 9 cells), gaps 0 or 1 s"""
+    """every valid file of <= nmax_full rows over CELLS (<= nmax_small rows over the cells SMALL), gaps 0 or 1 s"""
     for n in range(1, nmax_small + 1):
-        cells = CELLS if n <= nmax_full else CELLS[:8] + CELLS[9:10]
+        cells = CELLS if n <= nmax_full else [CELLS[k] for k in SMALL]
         for combo in itertools.product(range(len(cells)), repeat=n):
             for gaps in itertools.product([0, 8], repeat=n - 1):
                 uid, t, rows = 0, 8, []
@@ -497,13 +609,15 @@ def exhaustive(nmax_full, nmax_small):
                     for d, spec in cells[ci]:
                         uid += 1
                         if spec[0] == "on":
-                            it = ["onset", spec[1], uid, (uid + k) % 2 == 0]
+                            it = ["onset", spec[1], uid, (uid + k) % 4, (uid + k) % 5 == 0]
                         elif spec[0] == "off":
-                            it = ["offset", spec[1]]
+                            it = ["offset", spec[1], k % 2 == 1]
+                        elif spec[0] == "in":
+                            it = ["inset", spec[1], uid]
                         elif spec[0] == "dur":
-                            it = ["duration", spec[1], uid, (uid + k) % 2]
+                            it = ["duration", spec[1], uid, (uid + k) % 2, False]
                         else:
-                            it = ["plain", uid, uid % 2]
+                            it = ["plain", uid, (uid + k) % 4 if d is None else 0]
                         if d is None:
                             r["items"].append(it)
                         else:
@@ -521,13 +635,21 @@ CORPUS = [
     [{"time": 0, "items": [["duration", 8, 1, 0], ["duration", 40, 2, 1], ["onset", "B", 3, True]], "delayed": []},
      {"time": 8, "items": [["onset", "b", 4, True]], "delayed": [[8, ["duration", 8, 5, 0]]]},
      {"time": 16, "items": [], "delayed": []}, {"time": 24, "items": [["plain", 6, 1]], "delayed": []}],
+    # one row with two Delay groups; an Inset; type tags at several depths; the 'def/a' prefix of Def/Ab
+    [{"time": 8, "items": [["onset", "A", 1, 2, True], ["plain", 2, 3]],
+      "delayed": [[8, ["onset", "Ab", 3, 3]], [16, ["onset", "C/1", 4, 0]]]},
+     {"time": 12, "items": [["inset", "a", 5], ["plain", 6, 2]], "delayed": []},
+     {"time": 40, "items": [["offset", "AB", True]], "delayed": []}],
+    # what validation rejects but the manager processes: Onset+Duration in one group, a bare Duration group
+    [{"time": 0, "items": [["onsetdur", "A", 8, 1]], "delayed": []}, {"time": 8, "items": [["durbare", 8, 2]], "delayed": []},
+     {"time": 16, "items": [["plain", 3, 0]], "delayed": []}, {"time": 24, "items": [["offset", "A"]], "delayed": []}],
 ]
 
 
 def _run_files(ctx, files, schema, dd, validate_every=0):
-    for lo in range(0, len(files), 3000):
-        chunk = files[lo:lo + 3000]
-        ans = ctx.model.batch([{"op": "c20.build", "rows": model_rows(f)} for f in chunk])
+    for lo in range(0, len(files), 2000):
+        chunk = files[lo:lo + 2000]
+        ans = ctx.model.batch([model_request(f) for f in chunk])
         for k, (f, a) in enumerate(zip(chunk, ans)):
             check_file(ctx, f, a, schema, dd, validate=bool(validate_every) and k % validate_every == 0)
             if k % 50 == 0:
@@ -540,17 +662,19 @@ def run(ctx):
     schema = load_schema_version("8.3.0")
     dd = DefinitionDict(DEFS, schema)
     spells = exact_spells(schema)
-    ctx.extra["rule"] = ("valid event histories (Offsets match an open Onset, no name twice per time point) over Onset/Offset "
-                         "of A,a,B,C/1,C/2, Duration groups (lengths on the 1/8 s grid, unit spellings s/ms/second/Seconds/"
-                         "seconds kept only where the conversion is exact), Delay groups, equal-onset rows, plain tags; "
-                         "<= 12 rows; exhaustive small files + random; non-trivial = some time point has a non-empty context")
-    ctx.extra["exact_unit_spellings"] = {str(k): v for k, v in sorted(spells.items()) if k in (1, 8, 12, 16, 40)}
+    ctx.extra["rule"] = ("valid event histories (Offsets/Insets match an open Onset, no name twice per time point) over Onset/"
+                         "Offset/Inset of A,a,B,C/1,C/2,Ab, Duration groups (lengths on the 1/8 s grid, unit spellings s/ms/second/"
+                         "Seconds/seconds kept only where the conversion is exact), Delay groups, equal-onset rows, plain tags, type "
+                         "tags (Condition-variable, Task) at several depths, lower-case reserved tags; <= 12 rows; exhaustive small "
+                         "files + random; the model reads the file's text; 4 unfolding variants (remove_types, replace_defs); "
+                         "non-trivial = some time point has a non-empty context")
     ctx.extra["later_rows_reading"] = "strict" if STRICT_LATER_ROWS else "inclusive (theorem merged_rows)"
-    nfull, nsmall = (3, 3) if ctx.quick() else (3, 4)
+    ctx.extra["variants"] = VARIANTS
+    nfull, nsmall = (2, 3) if ctx.quick() else (3, 4)
     files = [f for f in CORPUS] + list(exhaustive(nfull, nsmall))
     ctx.extra["exhaustive_rows"] = {"full_alphabet": nfull, "reduced_alphabet": nsmall, "files": len(files)}
-    _run_files(ctx, files, schema, dd, validate_every=40)
-    nrand = 2500 if ctx.quick() else 30000
+    _run_files(ctx, files, schema, dd, validate_every=25)
+    nrand = 2500 if ctx.quick() else 25000
     rnd = []
     for k in range(nrand):
         rows = gen_rows(ctx.rng, ctx.rng.randint(1, 12), spells)
@@ -563,8 +687,12 @@ def run(ctx):
                 rows[i]["time"], rows[i + 1]["time"] = rows[i + 1]["time"], rows[i]["time"]
         elif r < 0.06:                             # an unmatched Offset (not a valid history; model/impl only)
             rows[ctx.rng.randrange(len(rows))]["items"].append(["offset", "C/9"])
+        elif r < 0.09:                             # groups the validator rejects (model/impl only)
+            k2 = ctx.rng.randrange(len(rows))
+            rows[k2]["items"].append(ctx.rng.choice([["onsetdur", "C/8", 8, 900 + k2],
+                                                     ["durbare", ctx.rng.choice([4, 8, 16]), 950 + k2]]))
         rnd.append(rows)
-    _run_files(ctx, rnd, schema, dd, validate_every=10)
+    _run_files(ctx, rnd, schema, dd, validate_every=8)
 
 
 def replay(ctx, rec):
@@ -576,6 +704,6 @@ def replay(ctx, rec):
     if not case:
         print("nothing to replay (obligation-only record):", rec.get("broken_obligations"))
         return
-    a = ctx.model.batch([{"op": "c20.build", "rows": model_rows(case["rows"])}])[0]
+    a = ctx.model.batch([model_request(case["rows"])])[0]
     check_file(ctx, case["rows"], a, schema, dd)
     print("replayed", json.dumps(case)[:300])
